@@ -31,8 +31,10 @@ import (
 //	     q=<replies>                  DLQ plugin per record: o ok, w write error, n nack, e empty ack
 //	                                  reply, x unknown position, r Ack error; afterwards 'o'
 //	     sa<s>=<results>              source s's Ack results per call: o ok, r error, f io.EOF; then 'o'
-//	     stop=n | g@<k> | f@<k>       n: graceful stop once everything read has settled;
-//	                                  g@k / f@k: graceful / force stop after k records were read in total
+//	     stop=n | g@<k> | s@<k> | f@<k>  n: graceful stop once everything read has settled (as s);
+//	                                  g@k / s@k / f@k after k records were read in total: graceful stop by the user
+//	                                  (Stop(ctx, nil)), graceful stop at process shutdown (StopAll: Stop(ctx, reason)
+//	                                  with the non-nil pipeline.ErrGracefulShutdown), force stop
 //	     gmp=<p> lat=<0|1> seed=<x>   GOMAXPROCS, scripted latencies on/off, seed of the latencies
 type procSpec struct {
 	workers int
@@ -52,7 +54,7 @@ type scenario struct {
 	dBatch   []int
 	q        string
 	sa       []string
-	stopKind byte // 'n', 'g', 'f'
+	stopKind byte // 'n', 'g' (user stop, no reason), 's' (shutdown: stop with a non-nil reason), 'f'
 	stopAt   int
 	gmp      int
 	lat      bool
@@ -187,7 +189,7 @@ func parseScenario(line string) (*scenario, error) {
 	sc.q = kv["q"]
 	if v, ok := kv["stop"]; ok && v != "n" {
 		ps := strings.Split(v, "@")
-		if len(ps) != 2 || (ps[0] != "g" && ps[0] != "f") {
+		if len(ps) != 2 || (ps[0] != "g" && ps[0] != "f" && ps[0] != "s") {
 			return nil, fmt.Errorf("bad stop")
 		}
 		sc.stopKind = ps[0][0]
@@ -397,8 +399,52 @@ func genScenario(r *gen.Rand, o *gen.Out, i int) string {
 	// is settled through the DLQ and the sources can drain), the others buffer what they are given
 	// and acknowledge it only when their batch is full or at Stop(lastPosition) — with a batch
 	// larger than the run the acks arrive only after the stop request, during the node's drain.
+	// refused-result family (ParallelNode keeps order and loses nothing when one of its workers'
+	// nodes stops): a parallel processor with 2-4 workers returns, for ONE early record, a result
+	// the ProcessorNode refuses (changed position, MultiRecord, zero / two results, nil) — the record
+	// is dead-lettered (tolerant DLQ) and that worker's node stops, the other workers go on; every
+	// later record handed to the stopped worker must be dead-lettered too ("worker not running"),
+	// never passed on unprocessed (destinations see the processors' stamps)
+	refuse := !malformed && total >= 4 && r.Chance(1, 6)
+	if refuse {
+		o.Count("refused-result-parallel")
+		src := 0
+		for s := range sc.recs {
+			if sc.recs[s] > sc.recs[src] {
+				src = s
+			}
+		}
+		bad := r.Intn(sc.recs[src]/3 + 1)
+		mk := func(perSource bool) procSpec {
+			p := procSpec{workers: r.Range(2, 4)}
+			one := func(n int, hit bool) string {
+				b := []byte(strings.Repeat("s", n))
+				if hit && bad < n {
+					b[bad] = "pmzln"[r.Intn(5)]
+				}
+				return string(b)
+			}
+			if perSource {
+				for s := 0; s < sc.n; s++ {
+					p.kinds = append(p.kinds, one(sc.recs[s], s == src))
+				}
+			} else {
+				p.kinds = []string{one(sc.recs[src], true)}
+			}
+			return p
+		}
+		switch r.Pick(3, 2, 2) {
+		case 0:
+			sc.pp = []procSpec{mk(true)}
+		case 1:
+			sc.sp[src] = []procSpec{mk(false)}
+		default:
+			sc.dp[r.Intn(sc.m)] = []procSpec{mk(true)}
+		}
+		sc.winSize, sc.winThr = 0, 0
+	}
 	sc.dBatch = make([]int, sc.m)
-	batching := !malformed && sc.m >= 2 && total > 0 && r.Chance(1, 3)
+	batching := !malformed && !refuse && sc.m >= 2 && total > 0 && r.Chance(1, 3)
 	if batching {
 		o.Count("batching-destination")
 		dn := r.Intn(sc.m)
@@ -432,7 +478,7 @@ func genScenario(r *gen.Rand, o *gen.Out, i int) string {
 		}
 		nofilter(sc.pp)
 	}
-	if !batching && r.Chance(1, 3) {
+	if !batching && !refuse && r.Chance(1, 3) {
 		var b strings.Builder
 		for j := 0; j < 6; j++ {
 			if r.Chance(1, 4) {
@@ -456,11 +502,11 @@ func genScenario(r *gen.Rand, o *gen.Out, i int) string {
 	case 0:
 		sc.stopKind = 'n'
 	case 1:
-		sc.stopKind, sc.stopAt = 'g', r.Range(0, total)
+		sc.stopKind, sc.stopAt = "gs"[r.Intn(2)], r.Range(0, total)
 	default:
 		sc.stopKind, sc.stopAt = 'f', r.Range(0, total)
 		if batching {
-			sc.stopKind = 'g'
+			sc.stopKind = "gs"[r.Intn(2)]
 		}
 	}
 	o.Count("stop=" + string(sc.stopKind))
